@@ -23,7 +23,7 @@ var Check = &ev.Check{
 	Level: "exploration",
 	Rule: "reader schema R = every struct-like type of the cell universe; writer encodings = the reference encoding of every valid value with <=1 deviating field, transformed by every single evolution step (thorough: every pair of steps) at every applicable position: " +
 		"inject one well-formed foreign field (14 shapes: bool, i32, i64, double, binary, nested struct, list<struct>, map<binary,list<i16>>, set<i32>, structs nested 70 and 300 deep, lists nested 100 deep, a 200 kB binary, a 20 000-element list) with an unknown id (0, -1, max+1, 32767, a gap) or a known id under another wire type, at every field boundary; remove a field; retype a field to two other wire types; add a retyped second occurrence of a present field before it, after it and at the end; add a same-typed second occurrence after it and at the end; rewrite a container field (or add a second occurrence of it) with another element / key / value type, empty and non-empty (such a container reads as nil: gen/list.go, set.go, map.go); reverse field order; " +
-		"and the same steps inside every nested struct value (direct field, list/set element, map value) down to depth 2. Both decoding paths of R (stream path whole and 1-byte reads). " +
+		"and the same steps inside every nested struct value (direct field, list/set element, map value) down to depth 2. Both decoding paths of R (stream path whole and 1-byte reads, from a seekable reader, and from a reader whose Seek method always fails as on a pipe). " +
 		"Oracle (reference evolved decode): unknown-id and wrong-wire-type fields are ignored, absent optionals unset or default; decoding fails iff a required field without default is absent or mistyped (recursively), or a union does not end with exactly one member. " +
 		"A case is (type, transformed encoding); non-trivial = encodings that contain at least one foreign, retyped or removed field.",
 	Prepare: func(s *ev.S) error {
@@ -402,4 +402,10 @@ func one(e env, cell cells.Cell, ent reg.Entry, f *schema.File, t *schema.Type, 
 		rv, err := cellutil.DecodeStream(ent.Type, ck.New(enc))
 		judge("stream-path", rv, err)
 	}
+	// the same bytes from a reader that can seek (skipping becomes seeking) and from one
+	// that has a Seek method which always fails, as an *os.File on a pipe or socket does
+	rv, err = cellutil.DecodeStream(ent.Type, chunk.Seekable{Reader: chunk.Chunking{Name: "whole"}.New(enc)})
+	judge("stream-path[seekable]", rv, err)
+	rv, err = cellutil.DecodeStream(ent.Type, chunk.PipeLike{Reader: chunk.Chunking{Name: "whole"}.New(enc)})
+	judge("stream-path[pipe-like]", rv, err)
 }
